@@ -411,6 +411,13 @@ def _apply_common(piece, blk):
         # `move |..|`), its body is wrapped in braces and given the contract `spec`, in which $1 is
         # the first parameter's name. Absent call: nothing to do. Call without closure: hint skipped.
         nth = None
+        must = None
+        mm = re.search(r'\s~\s*(\S+)$', anchor)
+        if mm:
+            # `<callee>( ~ tok`: the hint is meant for the call whose (closure) argument mentions the token `tok`; calls that
+            # do not are left alone (robust against a neighbouring call of the same name appearing or disappearing)
+            must = mm.group(1)
+            anchor = anchor[:mm.start()].strip()
         mm = re.search(r'\s@(\d+)$', anchor)
         if mm:
             nth = int(mm.group(1))
@@ -419,6 +426,10 @@ def _apply_common(piece, blk):
         if len(hits) == 0:
             continue
         s = piece.src.s
+        if must is not None:
+            hits = [h_ for h_ in hits if any(t.text == must for t in s[h_ + n:rtok.match_close(s, h_ + n - 1)])]
+            if len(hits) == 0:
+                continue
         if nth is not None and nth < len(hits):
             hits = [hits[nth]]
         if len(hits) > 1:
